@@ -23,6 +23,7 @@ type Env struct {
 	eargs map[types.Object]Value
 	snap  *State // state at loop entry (unchanged)
 	head  *ssa.BasicBlock // header of the loop whose clause is being evaluated (nil outside loop clauses)
+	inner *Frame          // frame of the inlined helper that contains the loop (floating loop contracts)
 	cells map[token.Pos]*ssa.Alloc
 	multi map[token.Pos][]*ssa.Alloc // several cells per position (type-switch variables: one per case clause)
 	ct    *Contract
@@ -63,6 +64,21 @@ func (u *Unit) paramEnv(st *State, fn *ssa.Function, args []Value, entry *State)
 }
 
 func (u *Unit) invEnv(st *State, fr *Frame, b *ssa.BasicBlock) *Env {
+	if !fr.top && fr.caller != nil {
+		top := fr.caller
+		for top != nil && !top.top {
+			top = top.caller
+		}
+		if lc := u.loopContract(fr, b); top != nil && lc != nil && lc.floating {
+			// clauses written for the function under contract, loop now in an inlined helper: identifiers resolve in the
+			// function's frame, except that a local of the helper with the same name and type takes precedence
+			env := u.invEnv(st, top, nil)
+			env.inner = fr
+			env.snap = fr.loopSnap[b]
+			env.head = b
+			return env
+		}
+	}
 	env := u.paramEnv(st, fr.fn, fr.entryArgs, fr.entrySt)
 	env.fr = fr
 	env.cells = u.cellsOf(fr.fn)
@@ -98,6 +114,23 @@ func (env *Env) bindResults(cl *Clause, ct *Contract, ret Value) {
 func (env *Env) lookup(obj types.Object, name string) Value {
 	if v, ok := env.objs[obj]; ok {
 		return v
+	}
+	if env.inner != nil {
+		if _, isVar := obj.(*types.Var); isVar {
+			for v, p := range env.inner.regs {
+				a, ok := v.(*ssa.Alloc)
+				if !ok || a.Comment != name || !types.Identical(a.Type().(*types.Pointer).Elem(), obj.Type()) {
+					continue
+				}
+				if env.head != nil && a == env.u.rangeKeyCell(env.head) {
+					if iv, ok := env.u.iterValue(env.st, env.inner, env.head); ok {
+						return iv
+					}
+				}
+				val, _ := env.u.load(env.st, env.inner, p, nil)
+				return val
+			}
+		}
 	}
 	if env.fr != nil {
 		if a, ok := env.cells[obj.Pos()]; ok {
@@ -379,6 +412,26 @@ func (env *Env) evalCall(cl *Clause, x *ast.CallExpr) Value {
 		specFail("unsupported call in spec")
 	}
 	if i, ok := specVarIndex(x); ok {
+		if name, isFloat := cl.FloatNames[i]; isFloat {
+			// a local of the helper that now contains the loop (extracted loop), resolved by name in its frame
+			if env.inner == nil {
+				specFail("local %s of an extracted loop is not in scope here", name)
+			}
+			for v, p := range env.inner.regs {
+				a, ok := v.(*ssa.Alloc)
+				if !ok || a.Comment != name {
+					continue
+				}
+				if env.head != nil && a == env.u.rangeKeyCell(env.head) {
+					if iv, ok := env.u.iterValue(env.st, env.inner, env.head); ok {
+						return iv
+					}
+				}
+				val, _ := env.u.load(env.st, env.inner, p, nil)
+				return val
+			}
+			specFail("local %s of the helper is not live at this cut point", name)
+		}
 		v, bound := env.vars[i]
 		if !bound {
 			specFail("placeholder %d is not bound here", i)
@@ -390,7 +443,11 @@ func (env *Env) evalCall(cl *Clause, x *ast.CallExpr) Value {
 		if env.fr == nil {
 			specFail("iter() outside a loop")
 		}
-		if iv, ok := u.iterValue(st, env.fr, env.snapBlock()); ok {
+		lf, hb := env.fr, env.snapBlock()
+		if env.inner != nil {
+			lf, hb = env.inner, env.head
+		}
+		if iv, ok := u.iterValue(st, lf, hb); ok {
 			return iv
 		}
 		specFail("iter(): neither a range loop nor a loop with a single counter incremented once per iteration")
@@ -1017,7 +1074,7 @@ func (env *Env) formula(cl *Clause, asGoal bool) (res *Term) {
 	}
 	// hypothesis: instantiate lazily against a snapshot of the current state
 	snap := env.st.clone()
-	senv := &Env{u: env.u, st: snap, fr: env.fr, objs: map[types.Object]Value{}, entry: env.entry, eargs: env.eargs, snap: env.snap, head: env.head, cells: env.cells, multi: env.multi, ct: env.ct, vars: map[int]Value{}, hyp: true, lazy: true}
+	senv := &Env{u: env.u, st: snap, fr: env.fr, objs: map[types.Object]Value{}, entry: env.entry, eargs: env.eargs, snap: env.snap, head: env.head, inner: env.inner, cells: env.cells, multi: env.multi, ct: env.ct, vars: map[int]Value{}, hyp: true, lazy: true}
 	for k, v := range env.objs {
 		senv.objs[k] = v
 	}
